@@ -150,7 +150,8 @@ class Introspection(Endpoint):
                 _session_info["user_id"], _claims_restriction, client_id=_session_info["client_id"]
             )
             if user_info:
-                _resp.update(user_info)
+                # attributes of the user never replace what the token itself states (sub, client_id, scope, ...)
+                _resp.update({k: v for k, v in user_info.items() if k not in _resp})
 
         _resp["active"] = True
 
